@@ -338,6 +338,20 @@ fn main() {
             cases::write_lines(&out, &lines);
             println!("cases {}", lines.len());
         }
+        Some("trace-exec") => {
+            let inputs = cases::resolve_inputs(&get("inputs", "gen:100:exec"), seed);
+            let shards: usize = get("shards", "1").parse().unwrap();
+            let gc: u32 = get("gc", "0").parse().unwrap();
+            let all: Vec<Option<serde_json::Value>> = inputs.par_iter().map(|i| cases::exec_case(i, gc)).collect();
+            let skipped = all.iter().filter(|x| x.is_none()).count();
+            let (good, bad): (Vec<_>, Vec<_>) = all.into_iter().flatten().partition(|c| c["outcome"] == "ok");
+            let per = (good.len() + shards - 1) / shards.max(1);
+            for (s, chunk) in good.chunks(per.max(1)).enumerate() {
+                cases::write_lines(&format!("{}.{}", out, s), chunk);
+            }
+            cases::write_lines(&format!("{}.bad", out), &bad);
+            println!("cases {} outside_subset {} bad {}", good.len(), skipped, bad.len());
+        }
         Some("digests") => {
             // one line per input: id and digest of  parse ; emit  with the default switches (separate process per call)
             let inputs = cases::resolve_inputs(&get("inputs", "gen:100"), seed);
